@@ -128,6 +128,24 @@ inline void table_wrap_mutations(const Enc& e, std::vector<Mut>& out) {
   }
 }
 
+// A *valid* variant of an encoding in which every table entry that is not enclosed in another entry's frame declares a
+// larger size and carries that many padding bytes (what a writer with a coarser size estimate would emit).
+inline Bytes pad_outer_entries(const Enc& e, Rng& r) {
+  std::vector<const EntrySpan*> outer;
+  for (auto& s : e.entries) { bool inside = false; for (auto& t : e.entries) if (&t != &s && t.val_off <= s.id_off && s.end_off <= t.end_off) inside = true; if (!inside) outer.push_back(&s); }
+  std::sort(outer.begin(), outer.end(), [](const EntrySpan* a, const EntrySpan* b) { return a->id_off < b->id_off; });
+  Bytes out; size_t pos = 0;
+  for (const EntrySpan* s : outer) {
+    out.insert(out.end(), e.out.begin() + pos, e.out.begin() + s->size_off);       // everything up to and including the id
+    size_t vlen = s->end_off - s->val_off; size_t pad = 1 + r.below(5);
+    Enc sz; sz.put_uint(vlen + pad, Role::SIZE, 64); out.insert(out.end(), sz.out.begin(), sz.out.end());
+    out.insert(out.end(), e.out.begin() + s->val_off, e.out.begin() + s->end_off); out.insert(out.end(), pad, (uint8_t)(r.below(2) ? 0 : 0xA5));
+    pos = s->end_off;
+  }
+  out.insert(out.end(), e.out.begin() + pos, e.out.end());
+  return out;
+}
+
 inline void noise_mutations(const Bytes& b, Rng& r, int n, std::vector<Mut>& out) {
   for (int i = 0; i < n; i++) {
     Mut m; m.bytes = b; m.kind = MutKind::Noise; int op = (int)r.below(4);
